@@ -53,6 +53,8 @@ func pathNodes(leaf *node) []*node {
 	return ns
 }
 
+var rlimitLine = regexp.MustCompile(`(?m)^\(set-option :rlimit [^)]*\)\n`)
+
 var symRe = regexp.MustCompile(`\|[^|]*\||[A-Za-z_.$!@][A-Za-z0-9_.$!@#]*`)
 
 // header builds everything that precedes the path: sorts, spec functions,
@@ -207,7 +209,9 @@ func (x *Exec) buildScripts() []*scriptJob {
 				if !done[g.id] {
 					done[g.id] = true
 					job.goals = append(job.goals, g)
-					if g.expect == "cover" {
+					if g.expect == "cover" && g.cheap {
+						fmt.Fprintf(&body, "(echo \"goal %d\")\n(set-option :rlimit %d)\n(check-sat)\n(set-option :rlimit @RLIMIT@)\n", g.id, 300*rlimitPerMs)
+					} else if g.expect == "cover" {
 						fmt.Fprintf(&body, "(echo \"goal %d\")\n(check-sat)\n", g.id)
 					} else {
 						fmt.Fprintf(&body, "(echo \"goal %d\")\n(push 1)\n(assert (not %s))\n(check-sat)\n(pop 1)\n", g.id, n.text)
@@ -245,6 +249,13 @@ var goalLine = regexp.MustCompile(`^goal (\d+)$`)
 
 func runSolver(ctx context.Context, cfg solverCfg, text string, perCheckMs int, dir string, tag string) (map[int]string, string, error) {
 	f := filepath.Join(dir, tag+".smt2")
+	if strings.Contains(text, "@RLIMIT@") {
+		if strings.HasPrefix(cfg.name, "cvc5") {
+			text = rlimitLine.ReplaceAllString(text, "")
+		} else {
+			text = strings.ReplaceAll(text, "@RLIMIT@", fmt.Sprint(perCheckMs*rlimitPerMs))
+		}
+	}
 	if err := os.WriteFile(f, []byte(text), 0o644); err != nil {
 		return nil, "", err
 	}
